@@ -126,6 +126,7 @@ type Mismatch struct {
 	Impl   string `json:"impl"`
 	Model  string `json:"model"`
 	Oracle string `json:"oracle,omitempty"` // "violates" | "holds" | ""
+	Key    string `json:"key,omitempty"`    // class of a known finding, if the case falls in one
 	Note   string `json:"note,omitempty"`
 }
 
